@@ -40,6 +40,7 @@ type specCtx struct {
 	qvars   [][2]string     // enclosing quantified variables (name, sort)
 	prevSt  *State          // loop step clauses: state at the loop head of this iteration
 	prevVar map[string]Val  // ... and the variables as they were there
+	callee  bool            // evaluating the contract of a callee at a call site
 }
 
 func (c *specCtx) clone() *specCtx {
@@ -1233,7 +1234,10 @@ func (c *specCtx) call(n *ast.CallExpr) (sv, error) {
 				return sv{}, err
 			}
 			if v.c != nil {
-				return sv{}, c.errf("predicate %s: constant argument needs a conversion", pr.Name)
+				// an untyped constant argument is an int (write a conversion for anything else)
+				if v, err = c.coerce(v, tInt); err != nil {
+					return sv{}, err
+				}
 			}
 			cc.bound[pn] = v.Val
 		}
@@ -1567,6 +1571,17 @@ func (c *specCtx) specCall(sf *specFn, args []ast.Expr) (sv, error) {
 				return sv{}, err
 			}
 			terms = append(terms, v.S)
+		}
+	}
+	// big-endian loads read positions pos..pos+width-1: quantified facts about the buffer's
+	// content are instantiated there
+	if w := map[string]int{"be16": 2, "be32": 4, "be64": 8}[sf.Name]; w > 0 && len(terms) == 3 && e.mode == ModeBV && !c.callee && !strings.Contains(terms[2], "q.") {
+		for k := 0; k < w; k++ {
+			t := terms[2]
+			if k > 0 {
+				t = fmt.Sprintf("(bvadd %s %s)", terms[2], e.sc.idxLit(int64(k)))
+			}
+			e.sc.noteIdx(t, e.sc.idx())
 		}
 	}
 	rt := c.specType(sf.Ret)
